@@ -13,6 +13,7 @@ import (
 	"sync"
 
 	"github.com/gauss-project/aurorafs/pkg/boson"
+	"github.com/gauss-project/aurorafs/pkg/encryption"
 	"github.com/gauss-project/aurorafs/pkg/file/joiner"
 	"github.com/gauss-project/aurorafs/pkg/file/loadsave"
 	"github.com/gauss-project/aurorafs/pkg/file/pipeline"
@@ -104,6 +105,15 @@ func dataWithSpan(data []byte, size uint64) []byte {
 	return spanData
 }
 
+// chunkAddress returns the address under which the chunk of a reference is
+// stored: an encrypted reference is the chunk address followed by the key.
+func chunkAddress(ref boson.Address) boson.Address {
+	if b := ref.Bytes(); len(b) == encryption.ReferenceSize {
+		return boson.NewAddress(b[:boson.HashSize])
+	}
+	return ref
+}
+
 // GetPyramid implements Traverser.GetPyramid method.
 func (s *service) GetPyramid(ctx context.Context, addr boson.Address) (pyramid map[string][]byte, err error) {
 	storePyramidHashes := func(ref boson.Address) error {
@@ -112,7 +122,16 @@ func (s *service) GetPyramid(ctx context.Context, addr boson.Address) (pyramid m
 			return fmt.Errorf("traversal: joiner error on %q: %w", ref, err)
 		}
 		// for one chunk, it should save file chunk for known file size.
-		pyramid[ref.String()] = dataWithSpan(j.GetRootData(), uint64(span))
+		if chunkAddr := chunkAddress(ref); !chunkAddr.Equal(ref) {
+			// encrypted reference: the pyramid holds the chunk as it is stored, under its address
+			ch, err := s.store.Get(ctx, storage.ModeGetLookup, chunkAddr)
+			if err != nil {
+				return fmt.Errorf("traversal: root chunk of %q: %w", ref, err)
+			}
+			pyramid[chunkAddr.String()] = ch.Data()
+		} else {
+			pyramid[ref.String()] = dataWithSpan(j.GetRootData(), uint64(span))
+		}
 		if span > boson.ChunkSize {
 			j.SetSaveEdgeChunks(pyramid)
 			if err := j.IterateChunkAddresses(func(addr boson.Address) error { return nil }); err != nil {
@@ -170,7 +189,8 @@ func (s *service) GetChunkHashes(ctx context.Context, addr boson.Address, pyrami
 	pieces = make([][]byte, 0)
 
 	if !uploading {
-		if _, exists := pyramid[addr.String()]; !exists {
+		rootAddr := chunkAddress(addr)
+		if _, exists := pyramid[rootAddr.String()]; !exists {
 			return nil, nil, fmt.Errorf("invalid pyramid without reference %s\n", addr)
 		}
 
@@ -210,11 +230,11 @@ func (s *service) GetChunkHashes(ctx context.Context, addr boson.Address, pyrami
 			// here we can put those data into localstore.
 			rCtx := sctx.SetRootHash(ctx, addr)
 			// first we put root chunk
-			_, err = s.store.Put(rCtx, storage.ModePutRequest, boson.NewChunk(addr, pyramid[addr.String()]))
+			_, err = s.store.Put(rCtx, storage.ModePutRequest, boson.NewChunk(rootAddr, pyramid[rootAddr.String()]))
 			if err != nil {
 				return
 			}
-			delete(p.seen, addr.String())
+			delete(p.seen, rootAddr.String())
 			for k := range p.seen {
 				addr, err = boson.ParseHexAddress(k)
 				if err != nil {
